@@ -21,16 +21,36 @@ class GenError(KeyError):
   """Failure raised by the user generator (a non-ValueError on purpose)."""
 
 
-def make_gen(tag, n, fail_at, ret):
-  """Generator factory shipped to the server as a lazy function."""
+_GATES = {}   # gate key -> predicate (evaluated by the scheduler): the gate is open
+_HOOKS = {}   # 'get_batch' -> callable(queue): the queue a request dequeues from
+
+
+def _gate(gate, i):
+  """A slow element: the producer parks until the harness predicate holds."""
+  if gate is None or gate[1] != i:
+    return
+  s = core.ACTIVE
+  pred = _GATES.get(gate[0])
+  if s is not None and s.controlled() and pred is not None:
+    s.block(pred, 'user-gen.gate')
+
+
+def make_gen(tag, n, fail_at, ret, gate=None):
+  """Generator factory shipped to the server as a lazy function.
+
+  gate = (key, position): the generator blocks before producing element
+  `position` (position == n: before it returns) until _GATES[key]() holds.
+  """
   def gen():
     for i in range(n):
+      _gate(gate, i)
       if fail_at is not None and fail_at == i:
         raise GenError(f'{tag}@{i}')
       s = core.ACTIVE
       if s is not None:
         s.yield_point('user-gen')
       yield (tag, i)
+    _gate(gate, n)
     if fail_at is not None and fail_at == n:
       raise GenError(f'{tag}@{n}')
     return ret
@@ -62,6 +82,17 @@ def patch_server_modules():
         courier_server.PrefetchedCourierServer._next_batch,  # pylint: disable=protected-access
         courier_server.PrefetchedCourierServer._stop_prefetch,  # pylint: disable=protected-access
     ])
+    # Observation only: which queue object a next-batch request dequeues from.
+    from ml_metrics._src.utils import iter_utils
+    orig_get_batch = iter_utils.IteratorQueue.get_batch
+
+    def get_batch(self, *args, **kwargs):
+      hook = _HOOKS.get('get_batch')
+      if hook is not None:
+        hook(self)
+      return orig_get_batch(self, *args, **kwargs)
+
+    iter_utils.IteratorQueue.get_batch = get_batch
     _patched = True
   return took, took2
 
@@ -81,36 +112,82 @@ def run_prefetch_case(case, watchdog_s=20.0):
   info = {'shims': took, 'server_shims': took2, 'server': server}
   gens = case['gens']
   batch = case['batch']
-  state = {'r1_batches': 0, 'r1_done': False}
+  state = {'r1_batches': 0, 'r1_done': False, 'r1_requests': 0, 'r2_init_issued': False,
+           'g0_queue': None, 'in_flight_at_reinit': 0}
+  r2_kind = (case.get('r2') or {}).get('kind')
+  gate_key = None
+  if r2_kind == 'init_while_blocked':
+    # g0 has one slow element: it parks its producer until the other client's
+    # initialisation was issued ('issue') or has reached g0's stop ('stopped').
+    gate_key = name
+
+    def gate_open():
+      if state['r1_done']:
+        return True
+      if case['r2'].get('gate', 'issue') == 'issue':
+        return state['r2_init_issued']
+      q = state['g0_queue']
+      return state['r2_init_issued'] and q is not None and (
+          getattr(q, '_stop_requested', False) or q.exception is not None or q.exhausted)
+
+    _GATES[gate_key] = gate_open
+  used = {}   # requester -> queue its current request dequeues from
+
+  def on_get_batch(q):
+    st = core.ACTIVE.me() if core.ACTIVE is not None else None
+    if st is not None and st.name in ('R1', 'R2'):
+      used[st.name] = q
+
+  _HOOKS['get_batch'] = on_get_batch
 
   def lazy_gen(gi):
     g = gens[gi]
-    return lazy_fns.trace(make_gen)(f'g{gi}', g['n'], g.get('fail_at'), f'ret{gi}')
+    gate = (gate_key, g['gate_at']) if gate_key and g.get('gate_at') is not None else None
+    return lazy_fns.trace(make_gen)(f'g{gi}', g['n'], g.get('fail_at'), f'ret{gi}', gate)
 
   def do_init(who, gi):
     r = server._init_iterator(lazy_gen(gi))  # pylint: disable=protected-access
     log.append(('init', who, gi, None if r is None else type(r).__name__))
     return r
 
+  def request(who):
+    """One next-batch request; returns (items, marker)."""
+    used[who] = None
+    if who == 'R1':
+      state['r1_requests'] += 1
+      state['r1_in_request'] = True
+    raw = server._next_batch(batch)  # pylint: disable=protected-access
+    # No yield point between the handler's return and these observations.
+    q = used.get(who)
+    if who == 'R1':
+      state['r1_in_request'] = False
+    out = lazy_fns.pickler.loads(raw)
+    items = []
+    marker = None
+    meta = {'replaced': bool(q is not None and server._generator is not q)}  # pylint: disable=protected-access
+    for x in out:
+      if isinstance(x, StopIteration):
+        items.append(('END', x.value))
+        marker = 'end'
+        if q is not None:
+          # the end marker must be the one of the queue this request dequeued from
+          # (a stop request may legitimately arrive after the queue was drained,
+          # so only the carried return value is compared)
+          meta['end_ok'] = bool(list(q.returned)[:1] == [x.value])
+      elif isinstance(x, BaseException):
+        items.append(('EXC', type(x).__name__, str(x)[:60]))
+        marker = 'exc'
+      else:
+        items.append(tuple(x))
+    log.append(('batch', who, items, meta))
+    if who == 'R1':
+      state['r1_batches'] += 1
+    return items, marker
+
   def read_until_marker(who, max_requests=60):
     """Mimics the client loop: request batches until a terminal marker."""
     for _ in range(max_requests):
-      raw = server._next_batch(batch)  # pylint: disable=protected-access
-      out = lazy_fns.pickler.loads(raw)
-      items = []
-      marker = None
-      for x in out:
-        if isinstance(x, StopIteration):
-          items.append(('END', x.value))
-          marker = 'end'
-        elif isinstance(x, BaseException):
-          items.append(('EXC', type(x).__name__, str(x)[:60]))
-          marker = 'exc'
-        else:
-          items.append(tuple(x))
-      log.append(('batch', who, items))
-      if who == 'R1':
-        state['r1_batches'] += 1
+      _, marker = request(who)
       if marker:
         return marker
     log.append(('no_marker', who))
@@ -119,19 +196,14 @@ def run_prefetch_case(case, watchdog_s=20.0):
   def r1():
     try:
       do_init('R1', 0)
+      state['g0_queue'] = server._generator  # pylint: disable=protected-access
       marker = None
       reinit_at = case.get('reinit_at')
       if reinit_at is not None:
         # read `reinit_at` batches of g0, then initialise g1 from the same client
         for _ in range(reinit_at):
-          raw = server._next_batch(batch)  # pylint: disable=protected-access
-          out = lazy_fns.pickler.loads(raw)
-          items = [('END', x.value) if isinstance(x, StopIteration)
-                   else (('EXC', type(x).__name__, str(x)[:60])
-                         if isinstance(x, BaseException) else tuple(x)) for x in out]
-          log.append(('batch', 'R1', items))
-          state['r1_batches'] += 1
-          if any(i[0] in ('END', 'EXC') for i in items):
+          _, m = request('R1')
+          if m:
             break
         do_init('R1', 1)
         log.append(('reinit_done', 'R1'))
@@ -149,10 +221,22 @@ def run_prefetch_case(case, watchdog_s=20.0):
   def _r2():
     act = case['r2']
     s = core.ACTIVE
-    s.block(lambda: state['r1_batches'] >= act['after'] or state['r1_done'],
-            'r2.wait')
+    if act['kind'] == 'init_while_blocked':
+      # Wait until R1 has issued its (after+1)-th request, then initialise g1.
+      s.block(lambda: state['r1_requests'] >= act['after'] + 1 or state['r1_done'],
+              'r2.wait-request')
+    else:
+      s.block(lambda: state['r1_batches'] >= act['after'] or state['r1_done'],
+              'r2.wait')
     log.append(('r2_act', act['kind']))
-    if act['kind'] == 'init':
+    if act['kind'] == 'init_while_blocked':
+      state['r2_init_issued'] = True
+      if state.get('r1_in_request'):
+        state['in_flight_at_reinit'] += 1
+      do_init('R2', 1)
+      marker = read_until_marker('R2')
+      log.append(('r2_end', marker))
+    elif act['kind'] == 'init':
       do_init('R2', 1)
       marker = read_until_marker('R2')
       log.append(('r2_end', marker))
@@ -181,7 +265,13 @@ def run_prefetch_case(case, watchdog_s=20.0):
     state['r2_done'] = False
     sched.spawn(r2, name='R2')
   sched.spawn(finaliser, name='F')
-  sched.run(watchdog_s)
+  try:
+    sched.run(watchdog_s)
+  finally:
+    _HOOKS.pop('get_batch', None)
+    if gate_key is not None:
+      _GATES.pop(gate_key, None)
+  info['in_flight_at_reinit'] = state['in_flight_at_reinit']
   return sched, log, info
 
 
@@ -237,6 +327,21 @@ def analyse(case, sched, log, info):
         out.append(('two_end_markers', {'who': who, 'markers': markers}))
     if flat and any(x[0] in ('END', 'EXC') for x in flat) and flat[-1][0] not in ('END', 'EXC'):
       out.append(('marker_not_last', {'who': who, 'tail': flat[-3:]}))
+  # a response without terminal marker carries exactly one full batch, and an end
+  # marker is the one of the queue the request dequeued from
+  batch_events = [e for e in log if e[0] == 'batch']
+  for i, e in enumerate(batch_events):
+    items, meta = e[2], (e[3] if len(e) > 3 else {})
+    has_marker = any(x[0] in ('END', 'EXC') for x in items)
+    later = [x[0] for f in batch_events[i + 1:] if f[1] == e[1] for x in f[2]
+             if x[0] not in ('END', 'EXC')]
+    if not has_marker and len(items) != batch:
+      out.append(('short_batch_without_marker',
+                  {'who': e[1], 'batch': items, 'replaced': meta.get('replaced'),
+                   'generators_received_afterwards': sorted(set(later))}))
+    if meta.get('end_ok') is False:
+      out.append(('end_marker_of_other_generator',
+                  {'who': e[1], 'batch': items, 'replaced': meta.get('replaced')}))
   # exactly once across both readers
   allelems = [x for e in log if e[0] == 'batch' for x in e[2]
               if x[0] not in ('END', 'EXC')]
